@@ -230,4 +230,208 @@ theorem envFold_filter_profile (vars : List (List Nat × List Nat)) :
       | none => exact ih d
       | some k => exact ih _
 
+
+/-! ### `PX_A__B__C` names the nested key `a.b.c` -/
+
+/-- No two adjacent underscores. -/
+def noDU : List Nat → Bool
+  | 95 :: 95 :: _ => false
+  | _ :: rest => noDU rest
+  | [] => true
+
+theorem noDU_tail {b : Nat} {rest : List Nat} (h : noDU (b :: rest) = true) : noDU rest = true := by
+  cases rest with
+  | nil => rfl
+  | cons c r =>
+    unfold noDU at h
+    split at h
+    · cases h
+    · rename_i heq
+      simp only [List.cons.injEq] at heq
+      obtain ⟨_, rfl⟩ := heq
+      exact h
+    · rename_i heq; cases heq
+
+theorem noDU_head {c : List Nat} (h : noDU (95 :: c) = true) : ∀ x r, c = x :: r → x ≠ 95 := by
+  intro x r hc e
+  subst hc
+  subst e
+  simp [noDU] at h
+
+theorem replaceDU_cons_next_ne {b c : Nat} (hc : c ≠ 95) (r : List Nat) :
+    replaceDU (b :: c :: r) = b :: replaceDU (c :: r) :=
+  replaceDU.eq_2 b (c :: r) (fun rest _ h => by
+    simp only [List.cons.injEq] at h
+    exact hc h.1)
+
+/-- A segment without `__` that does not end in `_`, followed by `__`: the separator becomes one dot. -/
+theorem replaceDU_seg_sep : ∀ (s rest : List Nat), noDU s = true → (s ≠ [] → s.getLast? ≠ some 95) →
+    replaceDU (s ++ 95 :: 95 :: rest) = s ++ 46 :: replaceDU rest := by
+  intro s
+  induction s with
+  | nil => intro rest _ _; simp [replaceDU]
+  | cons b s ih =>
+    intro rest hn hl
+    have hn' := noDU_tail hn
+    cases s with
+    | nil =>
+      have hb : b ≠ 95 := by
+        intro e
+        have := hl (by simp)
+        simp [e] at this
+      simp only [List.cons_append, List.nil_append]
+      rw [replaceDU_cons_ne hb]
+      simp [replaceDU]
+    | cons c s' =>
+      have hl' : (c :: s') ≠ [] → (c :: s').getLast? ≠ some 95 := by
+        intro _
+        have := hl (by simp)
+        simpa [List.getLast?_cons_cons] using this
+      have ih' := ih rest hn' hl'
+      simp only [List.cons_append] at ih' ⊢
+      by_cases hb : b = 95
+      · subst hb
+        have hc : c ≠ 95 := noDU_head hn c s' rfl
+        rw [replaceDU_cons_next_ne hc, ih']
+      · rw [replaceDU_cons_ne hb, ih']
+
+theorem replaceDU_noDU : ∀ (s : List Nat), noDU s = true → replaceDU s = s := by
+  intro s
+  induction s with
+  | nil => intro _; simp [replaceDU]
+  | cons b s ih =>
+    intro hn
+    have hn' := noDU_tail hn
+    cases s with
+    | nil =>
+      by_cases hb : b = 95
+      · subst hb; simp [replaceDU]
+      · rw [replaceDU_cons_ne hb]; simp [replaceDU]
+    | cons c s' =>
+      by_cases hb : b = 95
+      · subst hb
+        rw [replaceDU_cons_next_ne (noDU_head hn c s' rfl), ih hn']
+      · rw [replaceDU_cons_ne hb, ih hn']
+
+/-- Segments joined by `sep`. -/
+def joinWith (sep : List Nat) : List (List Nat) → List Nat
+  | [] => []
+  | [s] => s
+  | s :: rest => s ++ sep ++ joinWith sep rest
+
+theorem replaceDU_join : ∀ (segs : List (List Nat)),
+    (∀ s ∈ segs, noDU s = true ∧ s.getLast? ≠ some 95) →
+    replaceDU (joinWith [95, 95] segs) = joinWith [46] segs := by
+  intro segs
+  induction segs with
+  | nil => intro _; simp [joinWith, replaceDU]
+  | cons s rest ih =>
+    intro h
+    have hs := h s (List.mem_cons_self ..)
+    cases rest with
+    | nil => simp only [joinWith]; exact replaceDU_noDU s hs.1
+    | cons s' rest' =>
+      have : joinWith [95, 95] (s :: s' :: rest') = s ++ 95 :: 95 :: joinWith [95, 95] (s' :: rest') := by
+        simp [joinWith]
+      rw [this, replaceDU_seg_sep s _ hs.1 (fun _ => hs.2), ih (fun x hx => h x (List.mem_cons_of_mem _ hx))]
+      simp [joinWith]
+
+theorem splitDot_ne_nil (bs : List Nat) : splitDot bs ≠ [] := by
+  induction bs with
+  | nil => simp [splitDot]
+  | cons b bs ih =>
+    simp only [splitDot]
+    split
+    · simp
+    · split <;> simp
+
+theorem splitDot_no_dot {a : List Nat} (h : 46 ∉ a) : splitDot a = [a] := by
+  induction a with
+  | nil => simp [splitDot]
+  | cons b a ih =>
+    simp only [List.mem_cons, not_or] at h
+    simp only [splitDot, ih h.2]
+    rw [if_neg (fun e => h.1 e.symm)]
+
+theorem splitDot_append_dot {a : List Nat} (rest : List Nat) (h : 46 ∉ a) :
+    splitDot (a ++ 46 :: rest) = a :: splitDot rest := by
+  induction a with
+  | nil =>
+    simp only [List.nil_append, splitDot]
+    cases hs : splitDot rest with
+    | nil => exact absurd hs (splitDot_ne_nil rest)
+    | cons p ps => simp
+  | cons b a ih =>
+    simp only [List.mem_cons, not_or] at h
+    simp only [List.cons_append, splitDot, ih h.2]
+    rw [if_neg (fun e => h.1 e.symm)]
+
+theorem splitDot_join : ∀ (segs : List (List Nat)), segs ≠ [] → (∀ s ∈ segs, 46 ∉ s) →
+    splitDot (joinWith [46] segs) = segs := by
+  intro segs
+  induction segs with
+  | nil => intro h; exact absurd rfl h
+  | cons s rest ih =>
+    intro _ hs
+    have h1 : 46 ∉ s := hs s (List.mem_cons_self ..)
+    cases rest with
+    | nil => simp [joinWith, splitDot_no_dot h1]
+    | cons s' rest' =>
+      have : joinWith [46] (s :: s' :: rest') = s ++ 46 :: joinWith [46] (s' :: rest') := by
+        simp [joinWith]
+      rw [this, splitDot_append_dot _ h1, ih (by simp) (fun x hx => hs x (List.mem_cons_of_mem _ hx))]
+
+theorem trimStart_of_head {bs : List Nat} (h : ∀ b r, bs = b :: r → isWs b = false) : trimStart bs = bs := by
+  cases bs with
+  | nil => rfl
+  | cons b r =>
+    have := h b r rfl
+    simp [trimStart, List.dropWhile, this]
+
+/-- Nothing to trim when neither end is blank. -/
+theorem trim_id {bs : List Nat} (hh : ∀ b r, bs = b :: r → isWs b = false)
+    (hl : ∀ b, bs.getLast? = some b → isWs b = false) : trim bs = bs := by
+  unfold trim
+  rw [trimStart_of_head hh]
+  have : trimStart bs.reverse = bs.reverse := by
+    apply trimStart_of_head
+    intro b r hr
+    apply hl b
+    have : bs = (b :: r).reverse := by rw [← hr, List.reverse_reverse]
+    rw [this]
+    simp
+  rw [this, List.reverse_reverse]
+
+
+theorem mem_joinWith {sep : List Nat} {b : Nat} : ∀ {segs : List (List Nat)}, b ∈ joinWith sep segs →
+    b ∈ sep ∨ ∃ s ∈ segs, b ∈ s := by
+  intro segs
+  induction segs with
+  | nil => intro h; simp [joinWith] at h
+  | cons s rest ih =>
+    intro h
+    cases rest with
+    | nil =>
+      simp only [joinWith] at h
+      exact Or.inr ⟨s, List.mem_cons_self .., h⟩
+    | cons s' rest' =>
+      have : joinWith sep (s :: s' :: rest') = s ++ sep ++ joinWith sep (s' :: rest') := by simp [joinWith]
+      rw [this] at h
+      rcases List.mem_append.mp h with h1 | h2
+      · rcases List.mem_append.mp h1 with h3 | h4
+        · exact Or.inr ⟨s, List.mem_cons_self .., h3⟩
+        · exact Or.inl h4
+      · rcases ih h2 with h5 | ⟨t, ht, hb⟩
+        · exact Or.inl h5
+        · exact Or.inr ⟨t, List.mem_cons_of_mem _ ht, hb⟩
+
+theorem trim_id_of_all {bs : List Nat} (h : ∀ b ∈ bs, isWs b = false) : trim bs = bs := by
+  apply trim_id
+  · intro b r e
+    exact h b (e ▸ List.mem_cons_self ..)
+  · intro b e
+    exact h b (List.mem_of_getLast? e)
+
+theorem eqUncased_refl (a : List Nat) : eqUncased a a = true := by simp [eqUncased]
+
 end Pxv.Config
